@@ -82,9 +82,10 @@ func refParse(s string) (d Directive, class string) {
 	d.Letter = s[i]
 	// the same flag may be used once only; at most one delimiter
 	seen := map[byte]bool{}
+	repeated := false
 	for k := 0; k < len(d.Flags); k++ {
 		if seen[d.Flags[k]] {
-			return d, "repeated-flag"
+			repeated = true
 		}
 		seen[d.Flags[k]] = true
 	}
@@ -94,10 +95,25 @@ func refParse(s string) (d Directive, class string) {
 			nd++
 		}
 	}
-	if nd > 1 {
+	switch {
+	case repeated && nd > 1:
+		return d, "repeated-flag|delimiter" // the documentation does not rank the two errors
+	case repeated:
+		return d, "repeated-flag"
+	case nd > 1:
 		return d, "delimiter"
 	}
 	return d, ""
+}
+
+// classMatches: does the observed error class satisfy the expected one ("a|b" admits either)
+func classMatches(expected, got string) bool {
+	for _, e := range strings.Split(expected, "|") {
+		if e == got {
+			return true
+		}
+	}
+	return false
 }
 
 // goDirective is the directive for Go's fmt that carries the same C-printf meaning: only the flags
